@@ -213,6 +213,24 @@ def check_case(ctx, case):
         etb = np.asarray(t[a].array.total_bounds, dtype=float).tolist()
         if not all((x != x and y != y) or x == y for x, y in zip(tbd, etb)):
             viol("spatial-op-wrong-column", "active-geometry:dask-total_bounds", etb, tbd)
+        # deriving a frame with another active geometry must not alter the (persisted) original
+        others = [c for c in geo_cols(d) if c != a]
+        if others:
+            with dask.config.set(scheduler="synchronous"):
+                ok_, r2, tb_ = ctx.guarded(lambda: (lambda pd_: (
+                    pd_.set_geometry(others[0]).compute().geometry.name,
+                    pd_.map_partitions(lambda p_: pd.Series([p_.geometry.name]), meta=pd.Series([""])).compute().tolist(),
+                    sorted(pd_.cx[x0:x1, y0:y1].compute()["rid"].tolist())))(ddf.persist()))
+            if not ok_:
+                rec_raise("dask-persist-set_geometry", r2, tb_)
+            else:
+                ctx.count("state_checks")
+                ctx.sig("dask-persist-set_geometry")
+                if r2[0] != others[0]:
+                    viol("active-changed", "active-geometry:dask-set_geometry-result", others[0], r2[0])
+                if any(x != a for x in r2[1]) or r2[2] != exp_cx:
+                    viol("active-changed", "active-geometry:derived-frame-alters-persisted-original",
+                         [a, exp_cx], [r2[1], r2[2]])
         # Hilbert packing uses the active column
         with dask.config.set(scheduler="synchronous"):
             ok_, pk, tb_ = ctx.guarded(lambda: ddf.pack_partitions(npartitions=2, p=8).compute())
